@@ -17,13 +17,17 @@ import (
 // Case list layout (indices):
 //   [0, nShapes)            the shape enumerator: wrapper chains x call forms x recursion kinds x definers
 //   [nShapes, nShapes+nBlk) blocked shapes (handler-bind / ignore-errors / load-string / macro body)
-//   the rest                twin runs of generated programs under {default, dormant debugger, profiler}
+//   [.., ..+nTwin)          twin runs of generated programs under {default, dormant debugger, profiler}
+//   the rest (nExits)       exit shapes: tail-position constructs exercised along each of their internal
+//                           exits, the exit taken being chosen by the turn number (appended last so that the
+//                           indices - hence the generated programs - of the earlier blocks stay what they were)
 
 func init() {
 	fw.Register(&fw.Prop{
 		ID:    "C02",
 		Level: "exploration",
 		Rule: "(a) every chain of <=2 tail-position wrappers (14 wrappers) x 5 call forms x {self, 2-cycle, 3-cycle} x {defun, labels, set-lambda} is run with iteration counts {1,2,10,100,1000(,20000)}; a host builtin samples len(Stack.Frames) and TailIterations each turn; longer chains are sampled; " +
+			"(a') exit shapes: every tail-position construct is also exercised along each of its internal exits (dotimes with a zero / negative / turn-dependent count, with and without body; if / cond branch and clause chosen by the turn number; let, let*, flet, labels, macrolet with zero, one, many bindings; progn / or / thread-first / thread-last with one..many forms; the call form itself chosen by the turn), alone x 11 call forms x 3 recursion kinds and in sampled chains with the other wrappers, iteration counts {1,2,24,120,1200(,24000)}: the sampled entry heights must repeat with the period of the exit selection (12 turns) and the maximum height must be the same for 24 and for 120, 1200 turns; " +
 			"(b) loops routed through handler-bind / ignore-errors / load-string / a macro body must keep their frames and handlers; (c) generated programs are run under elimination on, off (dormant debugger) and profiler and their transcripts compared. distinct_nontrivial counts distinct (shape, recursion kind, definer, iteration count) and program-feature signatures whose runs took >= 5 steps",
 		Assumptions: []string{
 			"a dormant Debugger (IsEnabled()==false) is the configuration that disables elimination, as the property states",
@@ -38,7 +42,7 @@ func init() {
 	})
 }
 
-type c02Lay struct{ nShapes, nBlocked, nTwin, total int }
+type c02Lay struct{ nShapes, nBlocked, nTwin, nExits, total int }
 
 func c02Layout(tier string) c02Lay {
 	l := c02Lay{}
@@ -47,7 +51,8 @@ func c02Layout(tier string) c02Lay {
 	l.nShapes = chains*len(c02CallForms)*3 + pick(tier, 300, 6000) // exhaustive <=2 for (kind x definer rotated), plus sampled long chains
 	l.nBlocked = pick(tier, 60, 600)
 	l.nTwin = pick(tier, 3000, 200000)
-	l.total = l.nShapes + l.nBlocked + l.nTwin
+	l.nExits = c02ExitExhaustive() + pick(tier, 250, 5000)
+	l.total = l.nShapes + l.nBlocked + l.nTwin + l.nExits
 	return l
 }
 
@@ -113,6 +118,18 @@ func c02Call(form, callee string, n, acc *sx.N) *sx.N {
 		return sx.Call("unpack", sx.Y(callee), sx.Call("list", n, acc))
 	case "funcall-function":
 		return sx.Call("funcall", sx.Call("function", sx.Y(callee)), n, acc)
+	case "thread-first-2":
+		// a non-final threaded expression, evaluated by the operator itself, before the final one
+		return sx.Call("thread-first", n, sx.Call("+", sx.I(0)), sx.Call(callee, acc))
+	case "thread-last-2":
+		return sx.Call("thread-last", acc, sx.Call("+", sx.I(0)), sx.Call(callee, n))
+	case "call-form-by-turn":
+		// the way the call is written changes from turn to turn
+		return sx.Call("cond",
+			sx.L(c02Turn(4, 0), c02Call("direct", callee, n, acc)),
+			sx.L(c02Turn(4, 1), c02Call("funcall", callee, n.Clone(), acc.Clone())),
+			sx.L(c02Turn(4, 2), c02Call("apply", callee, n.Clone(), acc.Clone())),
+			sx.L(sx.Y("else"), c02Call("thread-last", callee, n.Clone(), acc.Clone())))
 	case "head-call":
 		// ((callee -2 0) n' acc'): the HEAD is itself a call into the loop (it returns a
 		// function that continues it); a head is evaluated, never tail-called
@@ -122,18 +139,19 @@ func c02Call(form, callee string, n, acc *sx.N) *sx.N {
 }
 
 type c02Shape struct {
-	chain   []int // indices into c02Wrappers, outermost first
+	chain   []int // indices into c02Wrappers (then, from len(c02Wrappers) on, c02ExitWrappers), outermost first
 	call    string
 	cycle   int    // 1 self, 2, 3
 	definer string // defun labels set-lambda
 	iters   []int
 	side    bool // the body also makes a NON-final call for effect to a function of the cycle
+	exits   bool // an exit shape: the path through the chain depends on the turn number
 }
 
 func (s c02Shape) name() string {
 	var ws []string
 	for _, w := range s.chain {
-		ws = append(ws, c02Wrappers[w].name)
+		ws = append(ws, c02Wrap(w).name)
 	}
 	sd := ""
 	if s.side {
@@ -178,6 +196,159 @@ func c02ShapeFor(w *fw.W, idx int, tier string) c02Shape {
 	return c02Shape{chain: chain, call: fw.Pick(r, c02CallForms), cycle: r.Range(1, 3), definer: fw.Pick(r, definers), iters: iters, side: r.Chance(1, 3)}
 }
 
+// --- exit shapes: the path taken THROUGH a tail-position construct depends on the turn ----
+//
+// The wrappers above put the call on the common exit of each construct, the same one on
+// every turn.  Each construct has more exits that leave the call in tail position (a
+// dotimes that takes no turn at all, a let without bindings, the first clause of a cond, a
+// progn of one form ...); the wrappers below put the call on each of them, and choose the
+// exit from the turn variable n (> 0 here: the base case is tested first), so that one loop
+// goes through all of them in turn.  The period of every selection divides c02ExitPeriod.
+
+const c02ExitPeriod = 12
+
+// c02Turn is the test (= v (mod n m)).
+func c02Turn(m, v int) *sx.N {
+	return sx.Call("=", sx.I(int64(v)), sx.Call("mod", sx.Y("n"), sx.I(int64(m))))
+}
+
+// c02By2 / c02By3 choose one of the forms by the turn number.
+func c02By2(a, b *sx.N) *sx.N { return sx.Call("if", c02Turn(2, 0), a, b) }
+func c02By3(a, b, c *sx.N) *sx.N {
+	return sx.Call("cond", sx.L(c02Turn(3, 0), a), sx.L(c02Turn(3, 1), b), sx.L(sx.Y("else"), c))
+}
+
+func c02Fn(name string, formals []string, body ...*sx.N) *sx.N {
+	var fs []*sx.N
+	for _, f := range formals {
+		fs = append(fs, sx.Y(f))
+	}
+	return sx.L(append([]*sx.N{sx.Y(name), sx.L(fs...)}, body...)...)
+}
+
+var c02ExitWrappers = []c02Wrapper{
+	// if / cond: branch, clause and clause length chosen by the turn
+	{"if-branch-by-turn", func(x *sx.N, k int) *sx.N { return sx.Call("if", c02Turn(2, 0), x, x.Clone()) }},
+	{"cond-clause-by-turn", func(x *sx.N, k int) *sx.N {
+		return sx.Call("cond", sx.L(c02Turn(3, 0), x), sx.L(c02Turn(3, 1), sx.I(1), x.Clone()), sx.L(sx.Y("else"), sx.I(1), sx.I(2), x.Clone()))
+	}},
+	{"cond-no-else-by-turn", func(x *sx.N, k int) *sx.N {
+		return sx.Call("cond", sx.L(sx.Call("<", sx.Y("n"), sx.I(0)), sx.I(0)), sx.L(c02Turn(2, 0), x), sx.L(c02Turn(2, 1), sx.I(0), x.Clone()))
+	}},
+	// progn / or: one .. many forms
+	{"progn-length-by-turn", func(x *sx.N, k int) *sx.N {
+		return c02By3(sx.Call("progn", x), sx.Call("progn", sx.I(1), x.Clone()), sx.Call("progn", sx.I(1), sx.Y("n"), sx.Call("+", sx.Y("n"), sx.I(1)), x.Clone()))
+	}},
+	{"or-1", func(x *sx.N, k int) *sx.N { return sx.Call("or", x) }},
+	{"or-length-by-turn", func(x *sx.N, k int) *sx.N {
+		return c02By3(sx.Call("or", x), sx.Call("or", sx.Y("false"), x.Clone()), sx.Call("or", sx.Nil(), sx.Y("false"), sx.Call("=", sx.Y("n"), sx.I(0)), x.Clone()))
+	}},
+	// binding forms: zero, one, many bindings; one or several body forms
+	{"let-0", func(x *sx.N, k int) *sx.N { return sx.Call("let", sx.L(), x) }},
+	{"let-bindings-by-turn", func(x *sx.N, k int) *sx.N {
+		t := fmt.Sprintf("t%d", k)
+		return c02By3(sx.Call("let", sx.L(), x),
+			sx.Call("let", sx.L(sx.L(sx.Y(t), sx.I(1))), x.Clone()),
+			sx.Call("let", sx.L(sx.L(sx.Y(t), sx.I(1)), sx.L(sx.Y(t+"b"), sx.Y("n")), sx.L(sx.Y(t+"c"), sx.Y("acc"))), sx.Y(t+"b"), x.Clone()))
+	}},
+	{"let*-0", func(x *sx.N, k int) *sx.N { return sx.Call("let*", sx.L(), x) }},
+	{"let*-bindings-by-turn", func(x *sx.N, k int) *sx.N {
+		t := fmt.Sprintf("t%d", k)
+		return c02By3(sx.Call("let*", sx.L(), x),
+			sx.Call("let*", sx.L(sx.L(sx.Y(t), sx.I(1))), x.Clone()),
+			sx.Call("let*", sx.L(sx.L(sx.Y(t), sx.I(1)), sx.L(sx.Y(t+"b"), sx.Y(t)), sx.L(sx.Y(t+"c"), sx.Y(t+"b"))), sx.Y(t+"c"), x.Clone()))
+	}},
+	{"flet-0", func(x *sx.N, k int) *sx.N { return sx.Call("flet", sx.L(), x) }},
+	{"flet-bindings-by-turn", func(x *sx.N, k int) *sx.N {
+		h := fmt.Sprintf("h%d", k)
+		return c02By2(sx.Call("flet", sx.L(), x),
+			sx.Call("flet", sx.L(c02Fn(h, []string{"a"}, sx.Y("a")), c02Fn(h+"b", nil, sx.I(1))), sx.Call(h, sx.I(1)), x.Clone()))
+	}},
+	{"labels-0", func(x *sx.N, k int) *sx.N { return sx.Call("labels", sx.L(), x) }},
+	{"labels-bindings-by-turn", func(x *sx.N, k int) *sx.N {
+		h := fmt.Sprintf("h%d", k)
+		return c02By2(sx.Call("labels", sx.L(), x),
+			sx.Call("labels", sx.L(c02Fn(h, []string{"a"}, sx.Y("a")), c02Fn(h+"b", nil, sx.Call(h, sx.I(1)))), sx.Call(h+"b"), x.Clone()))
+	}},
+	{"macrolet-bindings-by-turn", func(x *sx.N, k int) *sx.N {
+		m := fmt.Sprintf("mm%d", k)
+		return c02By2(sx.Call("macrolet", sx.L(), x),
+			sx.Call("macrolet", sx.L(c02Fn(m, []string{"a"}, sx.Y("a")), c02Fn(m+"b", []string{"a"}, sx.Y("a"))), sx.I(0), x.Clone()))
+	}},
+	// dotimes: the result form after no turn at all, after a number of turns that depends
+	// on the turn of the outer loop, with and without body forms
+	{"dotimes-count-0", func(x *sx.N, k int) *sx.N {
+		return sx.Call("dotimes", sx.L(sx.Y(fmt.Sprintf("i%d", k)), sx.I(0), x), sx.I(0))
+	}},
+	{"dotimes-count-negative", func(x *sx.N, k int) *sx.N {
+		return sx.Call("dotimes", sx.L(sx.Y(fmt.Sprintf("i%d", k)), sx.I(-2), x), sx.I(0))
+	}},
+	{"dotimes-count-3", func(x *sx.N, k int) *sx.N {
+		i := fmt.Sprintf("i%d", k)
+		return sx.Call("dotimes", sx.L(sx.Y(i), sx.I(3), x), sx.Y(i), sx.I(0))
+	}},
+	{"dotimes-count-by-turn", func(x *sx.N, k int) *sx.N { // -1, 0, 1
+		return sx.Call("dotimes", sx.L(sx.Y(fmt.Sprintf("i%d", k)), sx.Call("-", sx.Call("mod", sx.Y("n"), sx.I(3)), sx.I(1)), x), sx.I(0))
+	}},
+	{"dotimes-count-by-turn-no-body", func(x *sx.N, k int) *sx.N { // 0 .. 3
+		return sx.Call("dotimes", sx.L(sx.Y(fmt.Sprintf("i%d", k)), sx.Call("mod", sx.Y("n"), sx.I(4)), x))
+	}},
+	// threading operators without any threaded expression
+	{"thread-0-by-turn", func(x *sx.N, k int) *sx.N {
+		return c02By2(sx.Call("thread-first", x), sx.Call("thread-last", x.Clone()))
+	}},
+}
+
+// c02Wrap resolves a chain index: the wrappers of the enumerated shapes first, the exit wrappers after.
+func c02Wrap(i int) c02Wrapper {
+	if i < len(c02Wrappers) {
+		return c02Wrappers[i]
+	}
+	return c02ExitWrappers[i-len(c02Wrappers)]
+}
+
+// call forms of the exit shapes: those of the enumerated shapes whose heights are judged, and
+// the ones with an internal path of their own
+var c02ExitCallForms = []string{"direct", "thread-first", "thread-last", "funcall", "apply", "apply-list", "unpack", "funcall-function",
+	"thread-first-2", "thread-last-2", "call-form-by-turn"}
+
+func c02ExitExhaustive() int { return (len(c02ExitWrappers) + 1) * len(c02ExitCallForms) * 3 }
+
+// c02ExitShapeFor: j indexes the exit block; idx (the global index) seeds the sampled part.
+func c02ExitShapeFor(w *fw.W, idx, j int, tier string) c02Shape {
+	nw, ne := len(c02Wrappers), len(c02ExitWrappers)
+	iters := []int{1, 2, 2 * c02ExitPeriod, 10 * c02ExitPeriod}
+	if tier == "thorough" {
+		iters = append(iters, 100*c02ExitPeriod, 2000*c02ExitPeriod)
+	} else if j%5 == 0 {
+		iters = append(iters, 100*c02ExitPeriod)
+	}
+	definers := []string{"defun", "labels", "set-lambda"}
+	if j < c02ExitExhaustive() {
+		// every exit wrapper alone (and none: the call forms alone) x call form x recursion kind
+		wi := j % (ne + 1)
+		rest := j / (ne + 1)
+		var chain []int
+		if wi > 0 {
+			chain = []int{nw + wi - 1}
+		}
+		return c02Shape{chain: chain, call: c02ExitCallForms[rest%len(c02ExitCallForms)], cycle: rest/len(c02ExitCallForms) + 1,
+			definer: definers[(j/7)%3], iters: iters, side: j%8 == 1, exits: true}
+	}
+	// sampled chains of 2..3 wrappers of both kinds, at least one exit wrapper
+	r := w.RNG(idx, "exit-shape")
+	chain := make([]int, r.Range(2, 3))
+	for i := range chain {
+		if r.Chance(1, 2) {
+			chain[i] = nw + r.Intn(ne)
+		} else {
+			chain[i] = r.Intn(nw)
+		}
+	}
+	chain[r.Intn(len(chain))] = nw + r.Intn(ne)
+	return c02Shape{chain: chain, call: fw.Pick(r, c02ExitCallForms), cycle: r.Range(1, 3), definer: fw.Pick(r, definers), iters: iters, side: r.Chance(1, 8), exits: true}
+}
+
 // c02LoopProgram renders the loop functions.  Each function samples the stack
 // with (verif:depth) on entry, then either returns acc or makes the wrapped
 // tail call to the next function of the cycle.
@@ -188,7 +359,7 @@ func c02LoopProgram(s c02Shape, n int) string {
 		next := names[(i+1)%s.cycle]
 		call := c02Call(s.call, next, sx.Call("-", sx.Y("n"), sx.I(1)), sx.Call("+", sx.Y("acc"), sx.I(1)))
 		for k := len(s.chain) - 1; k >= 0; k-- {
-			call = c02Wrappers[s.chain[k]].wrap(call, k)
+			call = c02Wrap(s.chain[k]).wrap(call, k)
 		}
 		body := sx.Call("if", sx.Call("<=", sx.Y("n"), sx.I(0)), sx.Y("acc"), call)
 		if s.call == "head-call" {
@@ -332,13 +503,22 @@ func c02Run(w *fw.W, idx int) {
 		c02RunShape(w, idx)
 	case idx < l.nShapes+l.nBlocked:
 		c02RunBlocked(w, idx-l.nShapes)
-	default:
+	case idx < l.nShapes+l.nBlocked+l.nTwin:
 		c02RunTwin(w, idx)
+	default:
+		c02RunShapeS(w, c02ExitShapeFor(w, idx, idx-(l.nShapes+l.nBlocked+l.nTwin), w.Tier))
 	}
 }
 
-func c02RunShape(w *fw.W, idx int) {
-	s := c02ShapeFor(w, idx, w.Tier)
+func c02RunShape(w *fw.W, idx int) { c02RunShapeS(w, c02ShapeFor(w, idx, w.Tier)) }
+
+func c02RunShapeS(w *fw.W, s c02Shape) {
+	// period: the entry heights of a loop without leak repeat with this many turns
+	// (the cycle length; for exit shapes the period of the exit selection, a multiple of it)
+	period, base := s.cycle, 10
+	if s.exits {
+		period, base = c02ExitPeriod, s.iters[2]
+	}
 	heightAt := map[int]int{}
 	for _, n := range s.iters {
 		src := c02LoopProgram(s, n)
@@ -365,11 +545,11 @@ func c02RunShape(w *fw.W, idx int) {
 		}
 		// constant stack: every function of the cycle is entered at the same
 		// height on every turn from its second entry on
-		for i := 2 * s.cycle; !s.side && s.call != "head-call" && i < len(on.samples); i++ {
-			ref := on.samples[i-s.cycle]
+		for i := period + s.cycle; !s.side && s.call != "head-call" && i < len(on.samples); i++ {
+			ref := on.samples[i-period]
 			if on.samples[i].Height != ref.Height {
 				w.Violation("tail-loop-stack-grows:"+c02ShapeKey(s),
-					fmt.Sprintf("stack height grows with iterations in %s: entry %d at height %d, entry %d at height %d (n=%d)", s.name(), i-s.cycle, ref.Height, i, on.samples[i].Height, n),
+					fmt.Sprintf("stack height grows with iterations in %s: entry %d (turn variable n=%d) at height %d, entry %d (n=%d) at height %d (%d turns in all)", s.name(), i-period, n-(i-period), ref.Height, i, n-i, on.samples[i].Height, n),
 					src+"\nheights: "+c02Heights(on.samples, 40))
 				return
 			}
@@ -383,7 +563,7 @@ func c02RunShape(w *fw.W, idx int) {
 			return
 		}
 		// twin: elimination off must give the same answer where it fits
-		if n <= 100 || (n <= 1000 && w.Tier == "thorough") {
+		if n <= 120 || (n <= 1200 && w.Tier == "thorough") {
 			off := c02Exec(src, rt.Opts{Debugger: true})
 			w.Eval(1)
 			if !c02LimitErr(off.t) {
@@ -412,9 +592,9 @@ func c02RunShape(w *fw.W, idx int) {
 			}
 		}
 		heightAt[n] = on.mon.maxHeight
-		if h10, ok := heightAt[10]; ok && n > 10 && on.mon.maxHeight != h10 {
+		if h10, ok := heightAt[base]; ok && n > base && on.mon.maxHeight != h10 {
 			w.Violation("tail-loop-stack-grows:"+c02ShapeKey(s),
-				fmt.Sprintf("the maximum stack height of %s grows with the iteration count: %d frames for 10 turns, %d for %d turns", s.name(), h10, on.mon.maxHeight, n), src)
+				fmt.Sprintf("the maximum stack height of %s grows with the iteration count: %d frames for %d turns, %d for %d turns", s.name(), h10, base, on.mon.maxHeight, n), src)
 			return
 		}
 		w.Count("tail_elide_events", on.mon.elideEvents)
@@ -424,7 +604,7 @@ func c02RunShape(w *fw.W, idx int) {
 		w.CoverKey(fmt.Sprintf("shape|%s|n=%d", s.name(), n))
 	}
 	for _, c := range s.chain {
-		w.SetAdd("wrappers_seen", c02Wrappers[c].name)
+		w.SetAdd("wrappers_seen", c02Wrap(c).name)
 	}
 	w.SetAdd("call_forms_seen", s.call)
 	if w.WantSample() && len(s.chain) == 2 {
@@ -435,7 +615,7 @@ func c02RunShape(w *fw.W, idx int) {
 func c02ShapeKey(s c02Shape) string {
 	var ws []string
 	for _, w := range s.chain {
-		ws = append(ws, c02Wrappers[w].name)
+		ws = append(ws, c02Wrap(w).name)
 	}
 	sd := ""
 	if s.side {
